@@ -8,6 +8,7 @@ impl<T: RealNumber, D: Distance<Vec<T>, T>> G<T, D> {
     pub open spec fn reach(self, a: int, b: int) -> bool {
         exists|path: Seq<int>| #[trigger] self.core_path(path) && path.first() == a && path.last() == b
     }
+    #[verifier::opaque]
     pub open spec fn conn_ok(self, y: Seq<i16>, seeds: Seq<int>) -> bool {
         &&& y.len() == self.n()
         // the seed of cluster c is a core point labelled c ...
@@ -21,13 +22,16 @@ impl<T: RealNumber, D: Distance<Vec<T>, T>> G<T, D> {
     pub proof fn lemma_conn_init(self, y: Seq<i16>)
         requires y.len() == self.n(), forall|q: int| 0 <= q < y.len() ==> #[trigger] y[q] == -3,
         ensures self.conn_ok(y, Seq::<int>::empty())
-    {}
+    {
+        reveal(G::inv_outer); reveal(G::conn_ok);
+    }
 
     // a write that does not give a core point a cluster label: nothing changes for conn_ok
     pub proof fn lemma_conn_other(self, y: Seq<i16>, seeds: Seq<int>, idx: int, v: i16)
         requires self.conn_ok(y, seeds), 0 <= idx < self.n(), y[idx] < 0, v < 0 || !self.core(idx),
         ensures self.conn_ok(y.update(idx, v), seeds)
     {
+        reveal(G::inv_outer); reveal(G::conn_ok);
         let y2 = y.update(idx, v);
         assert forall|q: int| 0 <= q < self.n() && self.core(q) && #[trigger] y2[q] >= 0 implies y2[q] < seeds.len() && self.reach(seeds[y2[q] as int], q) by {
             assert(q != idx);
@@ -43,6 +47,7 @@ impl<T: RealNumber, D: Distance<Vec<T>, T>> G<T, D> {
         requires self.conn_ok(y, seeds), self.inv_outer(y, i, k), seeds.len() == k, i < self.n(), y[i] == -3, self.core(i),
         ensures self.conn_ok(y.update(i, k as i16), seeds.push(i))
     {
+        reveal(G::inv_outer); reveal(G::conn_ok);
         let y2 = y.update(i, k as i16);
         let s2 = seeds.push(i);
         assert(k < self.n());
@@ -78,6 +83,7 @@ impl<T: RealNumber, D: Distance<Vec<T>, T>> G<T, D> {
             self.core_nb_labelled(y, idx, k),
         ensures self.conn_ok(y.update(idx, k as i16), seeds)
     {
+        reveal(G::inv_outer); reveal(G::conn_ok);
         let y2 = y.update(idx, k as i16);
         let j = choose|j: int| 0 <= j < self.n() && #[trigger] self.nb(idx, j) && self.core(j) && y[j] == k;
         assert(y[j] >= 0);
@@ -99,6 +105,16 @@ impl<T: RealNumber, D: Distance<Vec<T>, T>> G<T, D> {
         assert forall|c: int| 0 <= c < seeds.len() implies 0 <= #[trigger] seeds[c] < self.n() && self.core(seeds[c]) && y2[seeds[c]] == c by {
             assert(y[seeds[c]] == c);
         }
+    }
+
+    // the same, for the top of the stack during an expansion (every stack entry has a core neighbour in cluster k)
+    pub proof fn lemma_conn_pop_core(self, y: Seq<i16>, st: Seq<int>, seeds: Seq<int>, i: int, k: int)
+        requires self.conn_ok(y, seeds), self.pop_pre(y, st, i, k), y[st.last()] < 0, self.core(st.last()),
+        ensures self.conn_ok(y.update(st.last(), k as i16), seeds)
+    {
+        reveal(G::inv_exp);
+        assert(0 <= st[st.len() - 1] < self.n() && self.core_nb_labelled(y, st[st.len() - 1], k));
+        self.lemma_conn_core_join(y, seeds, st.last(), k);
     }
 
     // ---- chains ---------------------------------------------------------------------------------------------------
@@ -174,6 +190,7 @@ impl<T: RealNumber, D: Distance<Vec<T>, T>> G<T, D> {
                 ==> self.reach(q, j),
             forall|c: int| 0 <= c < seeds.len() ==> self.first_core_of(y, #[trigger] seeds[c], c),
     {
+        reveal(G::inv_outer); reveal(G::conn_ok);
         assert forall|q: int, j: int| #![trigger y[q], y[j]] 0 <= q < self.n() && 0 <= j < self.n() && self.core(q) && self.core(j) && y[q] >= 0 && y[q] == y[j]
             implies self.reach(q, j) by {
             let s = seeds[y[q] as int];
@@ -192,5 +209,9 @@ impl<T: RealNumber, D: Distance<Vec<T>, T>> G<T, D> {
     pub open spec fn first_core_of(self, y: Seq<i16>, s: int, c: int) -> bool {
         &&& 0 <= s < self.n() && self.core(s) && y[s] == c
         &&& forall|q: int| 0 <= q < s && self.core(q) ==> 0 <= #[trigger] y[q] < c
+    }
+    // cluster c has a first core point
+    pub open spec fn has_first_core(self, y: Seq<i16>, c: int) -> bool {
+        exists|s: int| #[trigger] self.first_core_of(y, s, c)
     }
 }
